@@ -129,6 +129,7 @@ def run(ctx) -> None:
     ctx.rule("LIT-KW", "interpolation-only options of the literal functions are used only for parts of interpolated strings", floor=4)
     from ..rules import litkw as _litkw
     _litkw.check_literal_keywords(ctx, "LIT-KW")
+    _litkw.check_enclosing_agreement(ctx, "LIT-KW")
     ctx.rule("ASCII-RE", "IDENTIFIER_RE admits ASCII only (the GUARD rule relies on Identifier being ASCII by contract)", floor=1)
     from ..rules import asciire as _asciire
     _asciire.check_ascii_regex(ctx, "ASCII-RE", "common", "IDENTIFIER_RE", "cpp.string_literal raises for non-ASCII text and its callers pass identifiers unguarded")
